@@ -16,7 +16,7 @@ trap 'git -C /repo worktree remove --force "$W" 2>/dev/null; rm -rf "$W" "$OUT" 
 if ( cd "$W" && go build ./... 2>"$OUT/build.log" && go test -count=1 ./... >"$OUT/test.log" 2>&1 ); then
   echo "suite: PASS"
 else
-  echo "suite: FAIL (mutant not admissible)"; tail -5 "$OUT/test.log" "$OUT/build.log"
+  echo "suite: FAIL (mutant not admissible)"; tail -n 5 "$OUT/test.log"; tail -n 5 "$OUT/build.log"
 fi
 cd /verif
 for c in "$@"; do
